@@ -290,6 +290,7 @@ def _dep(name, flags=0, version=b""):
     return Adt("Dependency", "Dependency", [string(name), Adt("DependencyFlags", "bits", [Int(flags, "u32")]), string(version)])
 
 
+DEP_SETTERS = ("requires", "provides", "obsoletes", "conflicts", "recommends", "suggests", "enhances", "supplements")
 SCRIPTLET_SETTERS = ("pre_install_script", "post_install_script", "pre_uninstall_script", "post_uninstall_script", "pre_trans_script", "post_trans_script",
                      "pre_untrans_script", "post_untrans_script")
 
@@ -306,11 +307,72 @@ def scenario(name):
         return [], [(sn, [_scriptlet(b"true")]) for sn in SCRIPTLET_SETTERS], None
     if name == "deps":
         return [], [(k, [_dep(b"x" + k.encode()[:2], 8, b"1")]) for k in ("requires", "provides", "obsoletes", "conflicts", "recommends", "suggests", "enhances", "supplements")], None
+    if name.startswith("dep_"):
+        k = name[4:]
+        return [], [(k, [_dep(b"x" + k.encode()[:2], 8, b"1")])], None
     if name == "caps_first":
         return [(b"/d/a", b"root", b"root", b"cap_chown=ep"), (b"/d/b", b"root", b"root", None)], [], None
     if name == "caps_last":
         return [(b"/d/a", b"root", b"root", None), (b"/d/b", b"root", b"root", b"cap_chown=ep")], [], None
     raise KeyError(name)
+
+
+def check_cpio(e, content, hdr):
+    """content: payload bytes (terms; everything but file contents is concrete); hdr: the main header value. Returns None or what is wrong."""
+    from rpmvals import tag
+
+    def conc(bs):
+        out = bytearray()
+        for b_ in bs:
+            v_ = z3.simplify(b_)
+            if not z3.is_bv_value(v_):
+                return None
+            out.append(v_.as_long())
+        return bytes(out)
+    ents = {ent.fields[0].conc(): ent.fields[1] for ent in hdr.fields[1].items}
+
+    def strs(t):
+        d = ents.get(tag(t))
+        return [conc(x.bytes()) for x in d.fields[0].items] if d is not None else []
+
+    def ints(t):
+        d = ents.get(tag(t))
+        return [x.conc() for x in d.fields[0].items] if d is not None else []
+    base, dirs, didx, sizes, modes = strs("RPMTAG_BASENAMES"), strs("RPMTAG_DIRNAMES"), ints("RPMTAG_DIRINDEXES"), ints("RPMTAG_FILESIZES"), ints("RPMTAG_FILEMODES")
+    want = [(b"." + dirs[di] + bn, sz, md & 0xffff) for bn, di, sz, md in zip(base, didx, sizes, modes)]
+    pos, got = 0, []
+    n = len(content)
+    while True:
+        if pos % 4:
+            return "entry at offset %d is not 4-byte aligned" % pos
+        head = conc(content[pos:pos + 110])
+        if head is None or len(head) < 110 or head[:6] != b"070701":
+            return "no newc entry header at offset %d" % pos
+        try:
+            f = [int(head[6 + 8 * i:14 + 8 * i], 16) for i in range(13)]
+        except ValueError:
+            return "non-hexadecimal header field at offset %d" % pos
+        mode, size, namesz = f[1], f[6], f[11]
+        if os.environ.get("VERIF_DEBUG_CPIO"):
+            print("CPIO", pos, head, f, conc(content[pos + 110:pos + 140]))
+        nm = conc(content[pos + 110:pos + 110 + namesz])
+        if nm is None or not nm or nm[-1] != 0:
+            return "entry name not NUL-terminated at offset %d" % pos
+        nm = nm[:-1]
+        pos += 110 + namesz
+        pos += (-pos) % 4
+        if nm == b"TRAILER!!!":
+            break
+        got.append((nm, size, mode & 0xffff))
+        pos += size
+        pos += (-pos) % 4
+        if pos > n:
+            return "entry data runs past the end of the payload"
+    if pos != n and conc(content[pos:]) != b"\0" * (n - pos):
+        return "bytes other than padding after the trailer"
+    if got != want:
+        return "entries %s do not match the header's files %s" % (got, want)
+    return None
 
 
 def c09_build(ctx, name):
@@ -371,6 +433,12 @@ def c09_build(ctx, name):
             if b"rpmlib(FileCaps)" not in names:
                 ctx.fail("the header carries file capabilities but does not declare rpmlib(FileCaps)", "PackageBuilder::build", kind="c09build", scenario=name)
                 return
+        # the payload: a well-formed newc archive whose entries are the header's files, in header order, with matching names, sizes and modes,
+        # 4-byte alignment and a trailer (uncompressed here)
+        why = check_cpio(e, as_bytes(e, pkg.fields[1]), hdr)
+        if why:
+            ctx.fail("the payload of the built package is not the cpio archive the header describes: " + why, "PackageBuilder::build", kind="c09build", scenario=name)
+            return
         # alignment of the main header behind the signature header
         sig_len = 16 + 16 * len(meta.fields[1].fields[1].items) + len(meta.fields[1].fields[2].items)
         if (96 + sig_len + (-sig_len) % 8) % 8 != 0:
@@ -394,10 +462,13 @@ def replay_c09build(ctx, fl):
     why = why or RB.check_header_bytes(hdr, tag("RPMTAG_HEADERIMMUTABLE"))
     if why is None and b"cap_chown" in hdr and b"rpmlib(FileCaps)" not in hdr:
         why = "file capabilities without rpmlib(FileCaps)"
+    if why is None:
+        ents, st, hlen = RB.parse_header_entries(hdr)
+        why = RB.check_cpio_bytes(hdr[hlen:], ents, st)
     return why is not None, "real crate: scenario %s built through the public API: %s" % (fl["scenario"], why or "structurally valid")
 
 
-for _sn in ("empty", "files2", "scriptlets", "scriptlets_plain", "deps", "caps_first", "caps_last"):
+for _sn in ("empty", "files2", "scriptlets", "scriptlets_plain", "deps", "caps_first", "caps_last") + tuple("dep_" + k for k in DEP_SETTERS):
     HARNESSES["c09_build_" + _sn] = (lambda n: (lambda ctx: c09_build(ctx, n)))(_sn)
 REPLAYERS["c09"] = (lambda prev: (lambda ctx, fl: replay_c09build(ctx, fl) if fl.get("kind") == "c09build" else prev(ctx, fl)))(REPLAYERS["c09"])
 
@@ -477,6 +548,9 @@ def c06_strings(ctx, fields, nchars=1):
 
 
 def replay_c06(ctx, fl):
+    if fl.get("kind") == "c06flags":
+        ans = ctx.native.ask("fileopts_flags", *(fl.get("pair") or ["is_doc", "is_ghost"]))
+        return not ans.startswith("same"), "real crate: FileOptions::new(\"/x\").%s() built and read back -> %s" % ("().".join(fl.get("pair") or []), ans[:100])
     if fl.get("kind") == "c06v":
         ans = ctx.native.ask("readback2", "verify_script")
         return not ans.startswith("same"), "real crate: verify_script(..) then the %verifyscript tags of the built header -> " + ans[:120]
@@ -502,9 +576,6 @@ HARNESSES["c06_all_strings"] = lambda ctx: c06_strings(ctx, [f for f, _ in STR_F
 
 SCRIPT_ACCESSORS = dict(zip(SCRIPTLET_SETTERS, ("get_pre_install_script", "get_post_install_script", "get_pre_uninstall_script", "get_post_uninstall_script",
                                                 "get_pre_trans_script", "get_post_trans_script", "get_pre_untrans_script", "get_post_untrans_script")))
-DEP_SETTERS = ("requires", "provides", "obsoletes", "conflicts", "recommends", "suggests", "enhances", "supplements")
-
-
 def _eq_str(e, a, b):
     a, b = intrinsics.as_str(e, a).bytes(), intrinsics.as_str(e, b).bytes()
     return z3.BoolVal(False) if len(a) != len(b) else z3.And([x == y for x, y in zip(a, b)] + [z3.BoolVal(True)])
@@ -677,6 +748,8 @@ def c06_files(ctx, nfiles):
 HARNESSES["c06_scriptlets_prog"] = lambda ctx: c06_scriptlets(ctx, SCRIPTLET_SETTERS, True)
 HARNESSES["c06_scriptlets_plain"] = lambda ctx: c06_scriptlets(ctx, SCRIPTLET_SETTERS, False)
 HARNESSES["c06_deps_all"] = lambda ctx: c06_deps(ctx, DEP_SETTERS, 2)
+for _k in DEP_SETTERS:
+    HARNESSES["c06_deps_" + _k] = (lambda k: (lambda ctx: c06_deps(ctx, (k,), 1)))(_k)
 HARNESSES["c06_files_1"] = lambda ctx: c06_files(ctx, 1)
 HARNESSES["c06_files_2"] = lambda ctx: c06_files(ctx, 2)
 
@@ -1038,3 +1111,45 @@ def c06_files_misc(ctx):
 
 
 HARNESSES["c06_files_misc"] = c06_files_misc
+
+
+FLAG_METHODS = ("is_doc", "is_config", "is_config_noreplace", "is_ghost", "is_license", "is_readme")
+
+
+def c06_fileopts_flags(ctx):
+    """FileOptionsBuilder flag methods: the flags of the options are the union of what each method sets, whatever the order"""
+    ex = Exec(ctx.funcs, intrinsics.I)
+    ctx.stats = ex.stats
+    ctx.bounds = "FileOptions::new(\"/x\") followed by every ordered pair of the flag methods %s: flags = union of the two methods' own flags" % ", ".join(FLAG_METHODS)
+    newf = ctx.impl_fn("new", None, "FileOptions")
+
+    def body(e, inp):
+        out = {}
+        single = {}
+        for m in FLAG_METHODS:
+            fb = e.call_fn(newf, [Str.lit(b"/x")])
+            fb = e.call_fn(ctx.impl_fn(m, None, "FileOptionsBuilder"), [fb])
+            single[m] = fb.fields[0].fields[5].fields[0]
+        for a in FLAG_METHODS:
+            for b_ in FLAG_METHODS:
+                fb = e.call_fn(newf, [Str.lit(b"/x")])
+                fb = e.call_fn(ctx.impl_fn(a, None, "FileOptionsBuilder"), [fb])
+                fb = e.call_fn(ctx.impl_fn(b_, None, "FileOptionsBuilder"), [fb])
+                out[(a, b_)] = fb.fields[0].fields[5].fields[0]
+        return single, out
+
+    def on_path(e, inp, out):
+        k, v = out
+        if k != "return":
+            ctx.fail("a flag method panics: %s" % (v,), "FileOptionsBuilder", kind="c06flags", pair=[])
+            return
+        single, pairs = v
+        ctx.cover("flags computed", True)
+        for (a, b_), got in pairs.items():
+            if e._check(got.e != (single[a].e | single[b_].e)) or e._check(single[a].e == 0):
+                ctx.fail("FileOptions::new(..).%s().%s() does not carry the flags of both methods" % (a, b_), "FileOptionsBuilder::" + b_, kind="c06flags", pair=[a, b_])
+                return
+    ex.run_all(lambda e: None, body, on_path)
+
+
+HARNESSES["c06_fileopts_flags"] = c06_fileopts_flags
